@@ -99,6 +99,25 @@ def main(tier):
                         continue
                     ev.append({"e": "Add", "src": "dadd %s%s" % (" ".join(args), " (input %s)" % sfx if sfx else ""), "t": [l, s_], "dq": dq, "dr": dr,
                                "res": parse_dt(ch, got), "out": got})
+        # the date-time on the command line and one duration per stdin line: every accepted line is added to the same start value, lines
+        # that are refused (some of them after a readable h/m/s component) contribute nothing, neither to their own nor to a later line
+        # (a bare number counts days: '1h 1' is 25 hours)
+        dlines = [("1h foo", None), ("30m", 1800), ("45m later", None), ("-2h bar", None), ("10s", 10), ("x", None), ("-86400s", -86400), ("1h 1", 90000), ("25h", 90000),
+                  ("90m -", None), ("-1s", -1), ("3600s", 3600), ("2h+", None), ("0s", 0), ("86399s", 86399), ("24h x", None), ("24h", 86400)]
+        for l, s_ in pts[:: 3 if quick else 1][:60]:
+            start = "%sT%s" % (ch.fmtF(l), hms(s_))
+            p = core.run([dadd, start], inp="".join(x + "\n" for x, _ in dlines), timeout=30)
+            nrun += 1
+            outs = p.stdout.splitlines()
+            acc = [(x, n) for x, n in dlines if n is not None]
+            if len(outs) != len(acc):
+                rep.disagree("cli dadd DATE with durations on stdin: %d lines for %d acceptable durations" % (len(outs), len(acc)), {"start": start, "stderr": p.stderr[:200]})
+                continue
+            for (x, n), got in zip(acc, outs):
+                if not (chainmod.LDN_1601 + 2 <= (l * 86400 + s_ + n) // 86400 < caldrv.TAIL_FIRST - 2):
+                    continue
+                dq, dr = split(n)
+                ev.append({"e": "Add", "src": "dadd-stdin-durations", "t": [l, s_], "dq": dq, "dr": dr, "res": parse_dt(ch, got), "out": got, "line": x})
         # differences in seconds, near and far (more than 2^31 s apart too)
         for i in range(300 if quick else 30000):
             (la, sa) = rng.choice(pts)
